@@ -223,7 +223,7 @@ class _Rec:
 
     def __call__(self, read, info):
         out = _Tok((self.k, read.v))
-        _LOG.append((self.k, self.mate, read.v, out.v))
+        _LOG.append((self.k, self.mate, read.v, out.v, id(info)))
         return out
 
 
@@ -236,21 +236,21 @@ class _RecPaired(PairedEndModifier):
 
     def __call__(self, read1, read2, info1, info2):
         o1, o2 = _Tok((self.k, read1.v)), _Tok((self.k, read2.v))
-        _LOG.append((self.k, 1, read1.v, o1.v))
-        _LOG.append((self.k, 2, read2.v, o2.v))
+        _LOG.append((self.k, 1, read1.v, o1.v, id(info1)))
+        _LOG.append((self.k, 2, read2.v, o2.v, id(info2)))
         return o1, o2
 
 
 class _Sink1:
     def __call__(self, read, info):
-        _LOG.append(("sink", 1, read.v, None))
+        _LOG.append(("sink", 1, read.v, None, id(info)))
         return None
 
 
 class _Sink2:
     def __call__(self, read1, read2, info1, info2):
-        _LOG.append(("sink", 1, read1.v, None))
-        _LOG.append(("sink", 2, read2.v, None))
+        _LOG.append(("sink", 1, read1.v, None, id(info1)))
+        _LOG.append(("sink", 2, read2.v, None, id(info2)))
         return None
 
 
@@ -386,12 +386,18 @@ def _chain_ok(events, recs, opts, variant, mate, paired, x):
     mine = [ev for ev in events if ev[1] == mate]
     if not mine or mine[-1][0] != "sink" or any(ev[0] == "sink" for ev in mine[:-1]):
         return False
+    # every step acting on this mate must be handed this mate's own ModificationInfo (what a step records - cut
+    # prefix, matches - has to reach the later steps of the same mate), and never the other mate's
+    infos = {ev[4] for ev in mine}
+    others = {ev[4] for ev in events if ev[1] != mate}
+    if len(infos) != 1 or (infos & others):
+        return False
     steps, sink = mine[:-1], mine[-1]
     ordered, last = _expected(opts, variant, mate, paired)
     if len(steps) != len(ordered) + len(last):
         return False
     value = ("r1" if mate == 1 else "r2", x)
-    for n, (k, _m, inp, out) in enumerate(steps):
+    for n, (k, _m, inp, out, _info) in enumerate(steps):
         orig, routed = recs[k]
         if routed not in (0, mate):            # a transformer of the other mate saw this read
             return False
@@ -411,7 +417,7 @@ def _chain_ok(events, recs, opts, variant, mate, paired, x):
     if len(last) == 2 and type(recs[steps[-1][0]][0]).__name__ == type(recs[steps[-2][0]][0]).__name__:
         return False
     # each transformer acts at most once on the read
-    if len({k for k, _m, _i, _o in steps}) != len(steps):
+    if len({k for k, _m, _i, _o, _inf in steps}) != len(steps):
         return False
     return sink[2] == value
 
